@@ -60,6 +60,9 @@ func (b *Bounds) extendPointss(pointss []Path) {
 
 // Overlaps returns whether b and b2 overlap.
 func (b *Bounds) Overlaps(b2 *Bounds) bool {
+	if b.Empty() || b2.Empty() {
+		return false // an empty box contains no point (matters next to infinite boxes)
+	}
 	return b.Min.X <= b2.Max.X && b.Min.Y <= b2.Max.Y && b.Max.X >= b2.Min.X && b.Max.Y >= b2.Min.Y
 }
 
